@@ -101,6 +101,12 @@ func (l *LBFGS) InitDirection(loc *Location, dir []float64) (stepSize float64) {
 
 	l.a = resize(l.a, l.Store)
 	l.rho = resize(l.rho, l.Store)
+	// The unused slots of the history take part in the direction update
+	// as zeros: a NaN left in rho by an earlier run would not.
+	for i := range l.rho {
+		l.a[i] = 0
+		l.rho[i] = 0
+	}
 	l.y = l.initHistory(l.y)
 	l.s = l.initHistory(l.s)
 
